@@ -71,7 +71,8 @@ def generate(ctx):
                         "lr_a3": -0.6, "lr_b3": 0.7, "trace_mode": "nearest" if base["trace_mode"] == "cumulative" else "cumulative",
                         "tc_elig": 6.0}[k]
         yield {"part": "multicell", "trainer": MULTI[i % len(MULTI)], "dt": rng.choice([1.0, 0.5]), "B": rng.randint(1, 2), "T": rng.randint(6, 10),
-               "hypers": [base, other], "topology": rng.choice(["fan_in", "fan_out"]), "reduction": "sum", "reward": rng.choice(["scalar+", "scalar-", "tensor"]),
+               "hypers": [base, other], "topology": ["fan_in", "fan_out", "two_layers"][(i // len(MULTI)) % 3], "freeze_at": rng.choice([3, 5, 10 ** 9]),
+               "reduction": "sum", "reward": rng.choice(["scalar+", "scalar-", "tensor"]),
                "scale": rng.choice([1.0, 0.25, 2.0]), "p": rng.choice([0.4, 0.7]), "seed": rng.randrange(1 << 30)}
 
 
@@ -226,7 +227,8 @@ def run_multicell(ctx, desc, prop="C08"):
         ctx.violation(ctx.exc_signature(e, f"construct.multicell.{name}"), f"{type(e).__name__}: {str(e)[:160]}", desc)
         return False
     # cell i = (connection ci[i], neuron group ni[i])
-    ci, ni = ([0, 1], [0, 0]) if topo == "fan_in" else ([0, 0], [0, 1])
+    ci, ni = {"fan_in": ([0, 1], [0, 0]), "fan_out": ([0, 0], [0, 1]), "two_layers": ([0, 1], [0, 1])}[topo]
+    frozen = False
     orcs = [tr.Oracle(name, "dense", h.conns[ci[i]], h.dt, h.hypers[i], desc["reduction"]) for i in range(2)]
     g = torch.Generator().manual_seed(desc["seed"] + 9)
     B = desc["B"]
@@ -240,6 +242,11 @@ def run_multicell(ctx, desc, prop="C08"):
             reward = (torch.randn(B, generator=g, dtype=torch.float64) if desc["reward"] == "tensor"
                       else (1.0 if desc["reward"] == "scalar+" else -1.0) * (0.2 + float(torch.rand(1, generator=g))))
         delays = [None if c.delayedby is None else c.delay.detach().clone() for c in h.conns]
+        if topo == "two_layers" and not frozen and t >= desc.get("freeze_at", 10 ** 9):
+            # the first layer stops training (eval mode) while the second keeps training under the same trainer
+            h.layers[0].eval()
+            frozen = True
+            ctx.count("multicell_frozen_layer_cases")
         try:
             outs = h.step_apply(pres, posts, reward, desc["scale"])
         except Exception as e:  # noqa: BLE001
@@ -248,7 +255,10 @@ def run_multicell(ctx, desc, prop="C08"):
         ctx.case(f"{prop}/multicell-{topo}/{name}/differ:{differing}/{desc['reward'] if name in tr.THREE_FACTOR else '-'}/scale{desc['scale']}/B{B}")
         ctx.count("multicell_steps_checked")
         exp = [orc.step(pres[ci[i]], posts[ni[i]], delays[ci[i]], reward, desc["scale"]) for i, orc in enumerate(orcs)]
-        if topo == "fan_in":
+        if topo == "two_layers" and frozen:
+            z = np.zeros_like(exp[0][0])
+            per_conn = [((z, z), "frozen"), (exp[1], "second")]      # no update for the cell that is not training
+        elif topo in ("fan_in", "two_layers"):
             per_conn = [(exp[0], "first"), (exp[1], "second")]
         else:
             # both cells write into the one connection's accumulator, which sums the contributions
@@ -257,7 +267,7 @@ def run_multicell(ctx, desc, prop="C08"):
         for (pos, neg, dparam), ((epos, eneg), which) in zip(outs, per_conn):
             gp, gn = _np(pos), _np(neg)
             if not (np.allclose(gp - gn, epos - eneg, rtol=1e-8, atol=1e-10) and np.allclose(_np(dparam), epos - eneg, rtol=1e-8, atol=1e-10)):
-                mech = (f"{name}.multicell.{which}_cell_update_ne_its_own_rule" if topo == "fan_in"
+                mech = (f"{name}.multicell.{which}_cell_update_ne_its_own_rule" if topo != "fan_out"
                         else f"{name}.multicell.shared_connection_update_ne_sum_of_cell_rules")
                 ctx.violation(mech, f"step {t}: {which} (hyper-parameters differ in {differing}) changed by something other than the cells' own rules",
                               rdesc, {"max_err": float(np.abs(gp - gn - epos + eneg).max())})
